@@ -311,7 +311,7 @@ func validate(x float64, bin bool, s string) (r result) {
 			}
 		}
 		if m.Cmp(upper) >= 0 && !largest {
-			r.err = fmt.Sprintf("mantissa %s%s.%s is not below %s although a larger prefix exists", "", p.ip, p.fp, upper.FloatString(0))
+			r.err = fmt.Sprintf("mantissa %s.%s is not below %s although a larger prefix exists", p.ip, p.fp, upper.FloatString(0))
 			return
 		}
 		switch {
